@@ -131,6 +131,33 @@ def laws(ctx, kp, letter, alt, octave):
             if got != exp:
                 ctx.violation('p4-p5', f'{src} {d} P4 -> {mid} {d} P5 -> {got!r}, expected the octave {exp!r}',
                               {'pitch': src, 'direction': d})
+        # the same laws on pitch OBJECTS that are used more than once: a pitch handed to a transposition is what it was afterwards,
+        # and a pitch that came out of one can go into the next
+        try:
+            pobj = kp.HumdrumPitchImporter().import_pitch(src)
+            before = (pobj.name, pobj.octave)
+            ctx.ev()
+            ctx.mon('pitch_object_reuse_cases')
+            r_oct = kp.transpose_agnostics(pobj, kp.IntervalsByName['octave'], d)
+            r_uni = kp.transpose_agnostics(pobj, kp.IntervalsByName['P1'], d)
+            after = (pobj.name, pobj.octave)
+            ex_ = kp.HumdrumPitchExporter()
+            if after != before:
+                ctx.violation('argument-pitch-changed', f'transposing the pitch object of {src} ({d}) by an octave / a unison changed the object '
+                              f'itself: {before} -> {after}', {'pitch': src, 'direction': d})
+            elif ex_.export_pitch(r_oct) != exp or ex_.export_pitch(r_uni) != src:
+                ctx.violation('octave', f'object API: octave {d} of {src} = {ex_.export_pitch(r_oct)!r} (expected {exp!r}), unison = '
+                              f'{ex_.export_pitch(r_uni)!r}', {'pitch': src, 'direction': d})
+            elif abs(ea) <= 2:
+                m1 = kp.transpose_agnostics(pobj, kp.IntervalsByName['P4'], d)          # third use of the same source object
+                m2 = kp.transpose_agnostics(m1, kp.IntervalsByName['P5'], d)            # a result used as a source
+                back = kp.transpose_agnostics(r_oct, kp.IntervalsByName['octave'], 'down' if d0 == 'up' else 'up')
+                if ex_.export_pitch(m2) != exp or ex_.export_pitch(back) != src:
+                    ctx.violation('p4-p5', f'object API with re-used pitch objects: {src} {d} P4 then P5 = {ex_.export_pitch(m2)!r} '
+                                  f'(expected {exp!r}); octave and back = {ex_.export_pitch(back)!r} (expected {src!r})',
+                                  {'pitch': src, 'direction': d})
+        except Exception as ex:  # noqa
+            ctx.violation('raises-on-spellable', f'object API on {src} ({d}): {type(ex).__name__}: {ex}', {'pitch': src, 'direction': d})
 
 
 def run(ctx: Ctx):
